@@ -169,6 +169,25 @@ def register(gen, T):
         out.append("/-- the places where `find_single_macro` / the loop of `apply_macros_internal` consult the search position -/\n")
         out.append("def searchPositionUses : List String := " + T.lean_list(lean_str(x) for x in uses) + "\n\n")
 
+
+        # --- the nesting limit of #include (fix 6b8d369) ---------------------------------------------------
+        mm = re.search(r'const MAX_INCLUDE_DEPTH: u32 = (\d+);', pre)
+        if not mm:
+            raise ExtractError("MAX_INCLUDE_DEPTH not found")
+        inc_arm = [r for ps, g, r in match_arms(arms_text) if ps == ['"include"']]
+        if len(inc_arm) != 1:
+            raise ExtractError("include arm not found")
+        ia = normws(inc_arm[0])
+        i_check = ia.find("if file_loader.include_depth >= MAX_INCLUDE_DEPTH { return Err(PreprocessError::IncludeDepthExceeded(command_location)); }")
+        i_load = ia.find("file_loader.load(&file_name, Some(file_id))")
+        i_inc = ia.find("file_loader.include_depth += 1; let result = preprocess_included_file(")
+        i_dec = ia.find("file_loader.include_depth -= 1;")
+        shape_ok = 0 <= i_check < i_load < i_inc < i_dec and "include_depth: 0," in normws(pre)
+        out.append("/-- `MAX_INCLUDE_DEPTH`: an `#include` at nesting depth `>=` this is rejected -/\n")
+        out.append(f"def maxIncludeDepth : Nat := {mm.group(1)}\n\n")
+        out.append("/-- the depth starts at 0, is tested before the file is loaded, and is raised by one around the recursive call -/\n")
+        out.append(f"def includeDepthCheckedBeforeLoad : Bool := {'true' if shape_ok else 'false'}\n\n")
+
         # initial defines go through the `#define` path: each (name, value) becomes the located text "name value",
         # is lexed without a trailing line end, parsed by Macro::parse, and replaces an earlier macro of that name
         pif = normws(fn_body(pre, "preprocess_initial_file"))
